@@ -33,7 +33,7 @@ if not pkgdir:
     for c in ["util/semver", "util/pypi", "util/maven", "util/resolve", "util/resolve/npm", "util/resolve/maven", "util/resolve/pypi", "util/resolve/schema", "util/resolve/dep", "util/resolve/version", "api/v3", "api/v3alpha"]:
         if os.path.basename(c) == pkg and (not cands or c in cands): pkgdir = c; break
 if not pkgdir: done(False, "cannot find demo package dir for package %s (cands %s)" % (pkg, cands))
-run = "%s-run '^(%s)$'" % (("-tags %s " % os.environ["SEED_TAGS"]) if os.environ.get("SEED_TAGS") else "", "|".join(tests))
+run = "%s-run '^(%s)$'" % ((("-tags %s " % os.environ["SEED_TAGS"]) if os.environ.get("SEED_TAGS") else "") + ("-race " if os.environ.get("SEED_RACE") else ""), "|".join(tests))
 shutil.copy(os.path.join(src, "demo_test.go"), os.path.join(WT, pkgdir, "zz_seed_demo_test.go"))
 rc0, out0 = sh("go test -vet=off -count=1 %s ." % run, cwd=os.path.join(WT, pkgdir))
 if rc0 != 0: done(False, "demo does not pass on the unmodified tree:\n" + out0[-1500:])
